@@ -497,6 +497,15 @@ func (r *Runner) Exec(line string) (lhs string, res string) {
 	case "delmulti":
 		ms, sz, err := klevdb.DeleteMulti(ctx, l, parseOffsets(args[0]), noBackoff)
 		return lhs, multiRes(ms, sz, err)
+	case "delmultio":
+		// the variant that reports offsets only: the content is looked up in a scan taken just before
+		before := scanMap(l)
+		set, sz, err := klevdb.DeleteMultiOffsets(ctx, l, parseOffsets(args[0]), noBackoff)
+		return lhs, multiRes(offsToMsgs(before, set), sz, err)
+	case "msize":
+		// Log.Size of a message (C13): what the message adds to a segment
+		m := parseMsgTok(args[0])
+		return lhs, fmt.Sprintf("ok %d", l.Size(m))
 	case "find":
 		x := atoi(args[1])
 		var set map[int64]struct{}
@@ -527,6 +536,54 @@ func (r *Runner) Exec(line string) (lhs string, res string) {
 		var ms []klevdb.Message
 		var sz int64
 		var err error
+		if args[2] == "2" {
+			// the ...MultiOffsets variants (what Compact is built from) report offsets only
+			before := scanMap(l)
+			var set map[int64]struct{}
+			switch op + "." + args[0] {
+			case "trim.off":
+				set, sz, err = klevdb.TrimByOffsetMultiOffsets(ctx, l, x, noBackoff)
+			case "trim.count":
+				set, sz, err = klevdb.TrimByCountMultiOffsets(ctx, l, int(x), noBackoff)
+			case "trim.size":
+				ms, sz, err = klevdb.TrimBySizeMultiOffsets(ctx, l, x, noBackoff)
+				return lhs, multiRes(ms, sz, err)
+			case "trim.age":
+				set, sz, err = klevdb.TrimByAgeMultiOffsets(ctx, l, microTime(x), noBackoff)
+			case "compact.upd":
+				set, sz, err = klevdb.CompactUpdatesMultiOffsets(ctx, l, microTime(x), noBackoff)
+			case "compact.del":
+				set, sz, err = klevdb.CompactDeletesMultiOffsets(ctx, l, microTime(x), noBackoff)
+			default:
+				return lhs, "bad-op"
+			}
+			return lhs, multiRes(offsToMsgs(before, set), sz, err)
+		}
+		if op+"."+args[0] == "compact.all" {
+			// klevdb.Compact(age): x = 0: everything is older than the cut-off (now); x = 1: the cut-off lies a
+			// century back, nothing is. It reports an error only: what it removed is the difference of two scans.
+			before := scanMap(l)
+			age := time.Duration(0)
+			if x == 1 {
+				age = 100 * 365 * 24 * time.Hour
+			}
+			err := klevdb.Compact(ctx, l, age, noBackoff)
+			after := scanMap(l)
+			gone := map[int64]struct{}{}
+			for o := range before {
+				if _, ok := after[o]; !ok {
+					gone[o] = struct{}{}
+				}
+			}
+			for o, m := range after {
+				if b, ok := before[o]; !ok || fmtMsg(b) != fmtMsg(m) {
+					// a message that appeared or changed: reported as removed with its new content (never live before)
+					before[o] = m
+					gone[o] = struct{}{}
+				}
+			}
+			return lhs, multiRes(offsToMsgs(before, gone), -1, err)
+		}
 		switch op + "." + args[0] {
 		case "trim.off":
 			if multi {
@@ -597,6 +654,37 @@ func (r *Runner) Exec(line string) (lhs string, res string) {
 		return lhs, "ok"
 	}
 	return lhs, "bad-op"
+}
+
+// scanMap: every live message by offset (a full Consume scan).
+func scanMap(l klevdb.Log) map[int64]klevdb.Message {
+	out := map[int64]klevdb.Message{}
+	off := klevdb.OffsetOldest
+	for i := 0; i < 1_000_000; i++ {
+		nxt, ms, err := l.Consume(off, 64)
+		if err != nil || (len(ms) == 0 && (nxt == off || off < 0)) {
+			break
+		}
+		for _, m := range ms {
+			out[m.Offset] = m
+		}
+		off = nxt
+	}
+	return out
+}
+
+// offsToMsgs: the messages a set of reported offsets stood for (an offset that was not live shows as an
+// empty message at time 0, which no live message equals).
+func offsToMsgs(before map[int64]klevdb.Message, set map[int64]struct{}) []klevdb.Message {
+	var ms []klevdb.Message
+	for o := range set {
+		if m, ok := before[o]; ok {
+			ms = append(ms, m)
+		} else {
+			ms = append(ms, klevdb.Message{Offset: o, Time: time.UnixMicro(0).UTC()})
+		}
+	}
+	return ms
 }
 
 func multiRes(ms []klevdb.Message, sz int64, err error) string {
